@@ -266,8 +266,38 @@ def rectag_stream(ctx):
         if c[3] or rng.random() < 0.2:          # mostly tags with at least one back-reference
             cases.append(c)
     lines = ['tagvisit %s %s' % (c[0].hex(), c[1].hex() or '-') for c in cases]
+    # history: records whose tags have the same length (they occupy the same bytes of the reader's tag string) but different
+    # kinds of elements - more than 32 zero-size (singular) elements, then more than 32 elements that carry data: what is
+    # reported for a record must not depend on the records visited before it (B, A, B: both B's must read the same)
+    import struct as _st
+    hist = []
+    pairs = [(b'[()', b'[[c', lambda i: _st.pack('<I', 2) + bytes([97 + i % 26, 48 + i % 10])),
+             (b'[(())', b'[(ic)', lambda i: _st.pack('<i', i) + bytes([65 + i % 26])),
+             (b'[(()())', b'[(i[c)', lambda i: _st.pack('<i', -i) + _st.pack('<I', 1) + bytes([97 + i % 26])),
+             (b'[<()>', b'[<0i>', lambda i: bytes([1]) + _st.pack('<i', 7 * i))]
+    for sing, nons, elem in pairs:
+        for n_ in (33, 40):
+            a_line = 'tagvisit %s %s' % (sing.hex(), (_st.pack('<I', n_) + (bytes([0]) * n_ if sing == b'[<()>' else b'')).hex())
+            b_line = 'tagvisit %s %s' % (nons.hex(), (_st.pack('<I', n_) + b''.join(elem(i) for i in range(n_))).hex())
+            hist.append((len(lines), len(lines) + 2))
+            lines += [b_line, a_line, b_line]
     impl, model, mism = diff_streams(ctx, 'tagvisit', exe, lines)
     fails = 0
+    # reference: each history record visited alone, by a fresh process
+    fresh = {}
+    for i0, i1 in hist:
+        for j in (i0, i0 + 1):
+            if lines[j] not in fresh:
+                rc_, o_, e_ = run_lines(exe, [lines[j]])
+                fresh[lines[j]] = o_[0] if o_ else '<died>'
+    for i0, i1 in hist:
+        bad = [j for j in (i0, i0 + 1, i1) if j < len(impl) and impl[j] != fresh[lines[j]]]
+        if bad:
+            fails += 1
+            ctx.violation('c06-history-%d' % i0, 'C06: what visit reports for a record depends on the records visited before it (the same tag and bytes give '
+                          'different callbacks after a record whose tag occupied the same buffer than when visited alone)',
+                          {'kind': 'history', 'input_lines': lines[i0:i1 + 1], 'differs_at': [j - i0 for j in bad],
+                           'in_history': [impl[j][:1200] for j in bad], 'alone': [fresh[lines[j]][:1200] for j in bad]})
     for i, c in enumerate(cases):
         if i >= len(impl):
             break
@@ -288,6 +318,10 @@ def rectag_stream(ctx):
             ctx.violation('corr-tagvisit-%d' % i, 'correspondence tagvisit broke: model and implementation disagree on case %d' % i,
                           {'kind': 'correspondence', 'stream': 'tagvisit', 'input_line': lines[i], 'impl': impl[i], 'model': model[i] if i < len(model) else None,
                            'broken': 'correspondence stream tagvisit / Props.C06'}, found_input=False)
+    for j in sorted(m for m in mism if m >= len(cases))[:3]:
+        ctx.violation('corr-tagvisit-%d' % j, 'correspondence tagvisit broke: model and implementation disagree on history line %d' % j,
+                      {'kind': 'correspondence', 'stream': 'tagvisit', 'input_line': lines[j], 'impl': impl[j] if j < len(impl) else None,
+                       'model': model[j] if j < len(model) else None, 'broken': 'correspondence stream tagvisit / Props.C06'}, found_input=False)
     ctx.streams['tagvisit'].update({'with_back_reference': sum(1 for c in cases if c[3]), 'property_failures': fails})
     return fails
 
